@@ -607,7 +607,7 @@ pub fn tr_pat(cx: &mut Ctx, p: &Pat, ty: &Ty) -> R<String> {
 
 fn tr_match(cx: &mut Ctx, m: &ExprMatch, expected: Option<&Ty>) -> R<Tr> {
     let scrut = tr_expr(cx, &m.expr, None)?;
-    let pre = cx.take_prelude();
+    let pre = String::new(); // hoisted `iter.next()` bindings are emitted by the enclosing statement
     let mut ty: Option<Ty> = expected.cloned();
     let mut arms = vec![];
     for arm in &m.arms {
@@ -867,6 +867,7 @@ pub fn tr_closure(cx: &mut Ctx, e: &Expr, ptys: &[Ty], exp_ret: Option<&Ty>) -> 
         return Err(format!("closure arity {} vs {}", c.inputs.len(), ptys.len()));
     }
     cx.push();
+    let saved_prelude = std::mem::take(&mut cx.prelude);
     let mut ps = vec![];
     let mut pre = String::new();
     for (p, t) in c.inputs.iter().zip(ptys.iter()) {
@@ -889,7 +890,11 @@ pub fn tr_closure(cx: &mut Ctx, e: &Expr, ptys: &[Ty], exp_ret: Option<&Ty>) -> 
     }
     let body = tr_expr(cx, &c.body, exp_ret);
     cx.pop();
+    let inner_pre = std::mem::replace(&mut cx.prelude, saved_prelude);
     let body = body?;
+    if !inner_pre.is_empty() {
+        return Err("iterator .next() inside a closure".into());
+    }
     let ps: Vec<String> = ps.into_iter().map(|p| if p == "_" { "_".into() } else { p }).collect();
     Ok((format!("(fun {} => {}{})", ps.join(" "), pre, body.val()), body.ty))
 }
